@@ -289,4 +289,219 @@ theorem bridge {lhs rhs : MechTable} (hl : WF lhs) (hr : WF rhs) (i j : Nat) :
       have := hr.pos_inj (List.getElem?_eq_getElem hklt) her hid
       omega
 
+/-! ### `rows_match` -/
+
+theorem cellAt_rowAt (t : MechTable) (r i : Nat) (e : Nat × ValueKind × Matrix Value) (he : t.data[i]? = some e) :
+    cellAt (rowAt t r) i = (index1d e.2.2 r).cell := by
+  simp [cellAt, rowAt, he]
+
+theorem value_beq (a b : Value) : (a == b) = cellEq a.cell b.cell := rfl
+theorem some_value_beq (a b : Value) : (some a == some b) = cellEq a.cell b.cell := by
+  rw [Option.some_beq_some]; rfl
+
+theorem rows_match_eq {lhs rhs : MechTable} (hl : WF lhs) (hr : WF rhs) (i j : Nat) :
+    rows_match lhs i rhs j (ccIds lhs rhs) =
+      rowsMatch (commonCols (colsOf lhs) (colsOf rhs)) (rowAt lhs i) (rowAt rhs j) := by
+  unfold rows_match rowsMatch
+  rw [Bool.eq_iff_iff, List.all_eq_true, List.all_eq_true]
+  constructor
+  · rintro h ⟨i', j'⟩ hp
+    obtain ⟨el, er, hel, her, hcc⟩ := (bridge hl hr i' j').1 hp
+    have := h _ hcc
+    simp only [Option.map_eq_map, hl.get_data (List.mem_of_getElem? hel), hr.get_data (List.mem_of_getElem? her),
+      Option.map_some, some_value_beq] at this
+    rw [cellAt_rowAt lhs i i' el hel, cellAt_rowAt rhs j j' er her]
+    exact this
+  · rintro h ⟨l, r⟩ hp
+    obtain ⟨n, hln, hrn⟩ := (mem_ccIds hr l r).1 hp
+    obtain ⟨i', el, hel, rfl⟩ := pos_of_id (hl.id_mem_data hln)
+    obtain ⟨j', er, her, rfl⟩ := pos_of_id (hr.id_mem_data hrn)
+    have := h (i', j') ((bridge hl hr i' j').2 ⟨el, er, hel, her, hp⟩)
+    rw [cellAt_rowAt lhs i i' el hel, cellAt_rowAt rhs j j' er her] at this
+    simp only [Option.map_eq_map, hl.get_data (List.mem_of_getElem? hel), hr.get_data (List.mem_of_getElem? her),
+      Option.map_some, some_value_beq]
+    exact this
+/-! ### the join keys as sets of ids -/
+
+theorem contains_eq_decide_mem (s : HashSet Nat) (k : Nat) : HashSet.contains s k = decide (k ∈ s) := by
+  simp [HashSet.contains]
+
+theorem contains_commonRhs {lhs rhs : MechTable} (hl : WF lhs) (hr : WF rhs) (j : Nat)
+    (er : Nat × ValueKind × Matrix Value) (her : rhs.data[j]? = some er) :
+    HashSet.contains ((ccIds lhs rhs).map Prod.snd) er.1 =
+      (commonCols (colsOf lhs) (colsOf rhs)).any (fun p => p.2 == j) := by
+  rw [contains_eq_decide_mem, Bool.eq_iff_iff, decide_eq_true_iff, List.any_eq_true]
+  constructor
+  · intro h
+    obtain ⟨⟨l, r⟩, hp, hr'⟩ := List.mem_map.1 h
+    simp only at hr'; subst hr'
+    obtain ⟨n, hln, _⟩ := (mem_ccIds hr l er.1).1 hp
+    obtain ⟨i, el, hel, rfl⟩ := pos_of_id (hl.id_mem_data hln)
+    exact ⟨(i, j), (bridge hl hr i j).2 ⟨el, er, hel, her, hp⟩, by simp⟩
+  · rintro ⟨⟨i', j'⟩, hp, hj⟩
+    simp only [beq_iff_eq] at hj; subst hj
+    obtain ⟨el, er', _, her', hcc⟩ := (bridge hl hr i' j').1 hp
+    rw [her] at her'; cases her'
+    exact List.mem_map.2 ⟨_, hcc, rfl⟩
+
+theorem contains_commonLhs {lhs rhs : MechTable} (hl : WF lhs) (hr : WF rhs) (i : Nat)
+    (el : Nat × ValueKind × Matrix Value) (hel : lhs.data[i]? = some el) :
+    HashSet.contains ((ccIds lhs rhs).map Prod.fst) el.1 =
+      (commonCols (colsOf lhs) (colsOf rhs)).any (fun p => p.1 == i) := by
+  rw [contains_eq_decide_mem, Bool.eq_iff_iff, decide_eq_true_iff, List.any_eq_true]
+  constructor
+  · intro h
+    obtain ⟨⟨l, r⟩, hp, hl'⟩ := List.mem_map.1 h
+    simp only at hl'; subst hl'
+    obtain ⟨n, _, hrn⟩ := (mem_ccIds hr el.1 r).1 hp
+    obtain ⟨j, er, her, rfl⟩ := pos_of_id (hr.id_mem_data hrn)
+    exact ⟨(i, j), (bridge hl hr i j).2 ⟨el, er, hel, her, hp⟩, by simp⟩
+  · rintro ⟨⟨i', j'⟩, hp, hi⟩
+    simp only [beq_iff_eq] at hi; subst hi
+    obtain ⟨el', er, hel', _, hcc⟩ := (bridge hl hr i' j').1 hp
+    rw [hel] at hel'; cases hel'
+    exact List.mem_map.2 ⟨_, hcc, rfl⟩
+
+theorem filter_eq_filterMap_range {α : Type} : ∀ (xs : List α) (p : α → Bool) (q : Nat → Bool),
+    (∀ j e, xs[j]? = some e → p e = q j) →
+    xs.filter p = ((List.range xs.length).filter q).filterMap (fun j => xs[j]?) := by
+  intro xs
+  induction xs with
+  | nil => intro p q _; rfl
+  | cons y ys ih =>
+    intro p q h
+    have h0 : p y = q 0 := h 0 y rfl
+    have ih' := ih p (fun j => q (j + 1)) (fun j e he => h (j + 1) e (by simpa using he))
+    rw [List.length_cons, List.range_succ_eq_map, List.filter_cons, List.filter_cons, List.filter_map, h0, ih']
+    cases q 0 <;> simp [List.filterMap_map, Function.comp_def]
+
+/-- the right table's columns that are not join keys: as the kernel selects them (by id) and as the model does (by
+    position) -/
+theorem rhs_only_data {lhs rhs : MechTable} (hl : WF lhs) (hr : WF rhs) :
+    rhs.data.filter (fun e => !HashSet.contains ((ccIds lhs rhs).map Prod.snd) e.1) =
+      (rhsOnly (colsOf lhs) (colsOf rhs)).filterMap (fun j => rhs.data[j]?) := by
+  rw [filter_eq_filterMap_range rhs.data _ (fun j => !(commonCols (colsOf lhs) (colsOf rhs)).any (fun p => p.2 == j))]
+  · simp [rhsOnly, colsOf]
+  · intro j e he
+    rw [contains_commonRhs hl hr j e he]
+
+/-! ### `merge_rows` read back in the order of the output columns -/
+
+
+/-- the cell of column `id` in row `r`, as the kernel reads it -/
+def cellById (t : MechTable) (r : Nat) (id : Nat) : Value :=
+  Option.getD ((fun (x : ValueKind × Matrix Value) => index1d x.2 r) <$> AList.get t.data id) Value.Empty
+
+theorem cellById_of_mem {t : MechTable} (h : WF t) (r : Nat) {e : Nat × ValueKind × Matrix Value} (he : e ∈ t.data) :
+    cellById t r e.1 = index1d e.2.2 r := by
+  simp [cellById, h.get_data he]
+
+theorem merge_rows_eq (lhs : MechTable) (i : Nat) (rhs : MechTable) (j : Nat) (crhs : HashSet Nat) (empty : Bool) :
+    merge_rows lhs i rhs j crhs empty =
+      (rhs.data.filter (fun e => !HashSet.contains crhs e.1)).foldl
+        (fun row e => HashMap.insert row e.1 (if (empty || (j == 0)) then Value.Empty else cellById rhs j e.1))
+        (lhs.data.foldl (fun row e => HashMap.insert row e.1 (cellById lhs i e.1)) HashMap.new) := by
+  unfold merge_rows
+  simp only []
+  rw [foldl_skip (fun e => HashSet.contains crhs e.1)
+    (fun row e => HashMap.insert row e.1 (if (empty || (j == 0)) then Value.Empty else cellById rhs j e.1))]
+  · congr 1
+  · rintro s ⟨a, b⟩; rfl
+
+
+/-- reading a result row (a `HashMap<id, Value>`) back in the order of the output columns -/
+def readRow (ids : List Nat) (row : HashMap Nat Value) : Row :=
+  ids.map (fun id => ((AList.get row id).getD Value.Empty).cell)
+
+/-- ids of the right table's columns that are not join keys -/
+def roData (lhs rhs : MechTable) : List (Nat × ValueKind × Matrix Value) :=
+  rhs.data.filter (fun e => !HashSet.contains ((ccIds lhs rhs).map Prod.snd) e.1)
+
+theorem roData_nodup {lhs rhs : MechTable} (hr : WF rhs) : ((roData lhs rhs).map Prod.fst).Nodup :=
+  List.Nodup.sublist (List.Sublist.map _ List.filter_sublist) hr.ids_nodup
+
+theorem roData_disjoint {lhs rhs : MechTable} (hl : WF lhs) (hr : WF rhs) (hc : Compat lhs rhs)
+    {e : Nat × ValueKind × Matrix Value} (he : e ∈ roData lhs rhs) : e.1 ∉ lhs.data.map Prod.fst := by
+  intro hmem
+  have hmemr : e ∈ rhs.data := (List.mem_filter.1 he).1
+  have h1 := hl.mem_names hmem
+  have h2 := hr.mem_names (List.mem_map.2 ⟨e, hmemr, rfl⟩)
+  have hn := hc _ h1 _ h2 rfl
+  simp only at hn
+  have hcc : (e.1, e.1) ∈ ccIds lhs rhs := (mem_ccIds hr _ _).2 ⟨_, h1, by rw [hn]; exact h2⟩
+  have := (List.mem_filter.1 he).2
+  rw [contains_eq_decide_mem] at this
+  have hm : e.1 ∈ (ccIds lhs rhs).map Prod.snd := List.mem_map.2 ⟨_, hcc, rfl⟩
+  simp [hm] at this
+
+theorem filterMap_getElem_map {α β : Type} (xs : List α) (g : α → β) (d : β) : ∀ (ro : List Nat),
+    (∀ k ∈ ro, k < xs.length) →
+    (ro.filterMap (fun k => xs[k]?)).map g = ro.map (fun k => ((xs.map g)[k]?).getD d) := by
+  intro ro
+  induction ro with
+  | nil => intro _; rfl
+  | cons k ro ih =>
+    intro h
+    have hk : k < xs.length := h k (List.mem_cons_self ..)
+    rw [List.filterMap_cons, List.getElem?_eq_getElem hk]
+    simp only [List.map_cons, List.getElem?_map, List.getElem?_eq_getElem hk, Option.map_some, Option.getD_some]
+    rw [ih (fun k' hk' => h k' (List.mem_cons_of_mem _ hk'))]
+    simp [List.getElem?_map]
+
+theorem rhsOnly_lt (L R : List Col) : ∀ k ∈ rhsOnly L R, k < R.length := by
+  intro k hk
+  simp only [rhsOnly, List.mem_filter, List.mem_range] at hk
+  exact hk.1
+
+theorem merge_rows_read {lhs rhs : MechTable} (hl : WF lhs) (hr : WF rhs) (hc : Compat lhs rhs) (i j : Nat) (empty : Bool) :
+    readRow (lhs.data.map Prod.fst ++ (roData lhs rhs).map Prod.fst)
+        (merge_rows lhs i rhs j ((ccIds lhs rhs).map Prod.snd) empty) =
+      if empty then padRight (rhsOnly (colsOf lhs) (colsOf rhs)) (rowAt lhs i)
+      else mergeRow (rhsOnly (colsOf lhs) (colsOf rhs)) (rowAt lhs i) (rowAt rhs j) := by
+  rw [merge_rows_eq, show rhs.data.filter (fun e => !HashSet.contains ((ccIds lhs rhs).map Prod.snd) e.1) = roData lhs rhs from rfl]
+  simp only [readRow, List.map_append, List.map_map]
+  have hL : List.map ((fun id => ((AList.get
+        ((roData lhs rhs).foldl
+          (fun row e => HashMap.insert row e.1 (if (empty || (j == 0)) then Value.Empty else cellById rhs j e.1))
+          (lhs.data.foldl (fun row e => HashMap.insert row e.1 (cellById lhs i e.1)) HashMap.new)) id).getD Value.Empty).cell) ∘ Prod.fst)
+      lhs.data = rowAt lhs i := by
+    simp only [rowAt]
+    apply List.map_congr_left
+    intro e he
+    simp only [Function.comp]
+    rw [get_foldl_insert_not_mem Prod.fst _ _ (fun _ _ => rfl)]
+    · rw [get_foldl_insert_mem Prod.fst (fun e => cellById lhs i e.1) _ (fun _ _ => rfl) _ _ e hl.ids_nodup he]
+      simp [cellById_of_mem hl i he]
+    · intro hmem
+      obtain ⟨e', he', hid⟩ := List.mem_map.1 hmem
+      exact roData_disjoint hl hr hc he' (by rw [hid]; exact List.mem_map.2 ⟨e, he, rfl⟩)
+  have hR : List.map ((fun id => ((AList.get
+        ((roData lhs rhs).foldl
+          (fun row e => HashMap.insert row e.1 (if (empty || (j == 0)) then Value.Empty else cellById rhs j e.1))
+          (lhs.data.foldl (fun row e => HashMap.insert row e.1 (cellById lhs i e.1)) HashMap.new)) id).getD Value.Empty).cell) ∘ Prod.fst)
+      (roData lhs rhs) = (roData lhs rhs).map (fun e => if empty then none else (index1d e.2.2 j).cell) := by
+    apply List.map_congr_left
+    intro e he
+    simp only [Function.comp]
+    rw [get_foldl_insert_mem Prod.fst (fun e => if (empty || (j == 0)) then Value.Empty else cellById rhs j e.1) _
+      (fun _ _ => rfl) _ _ e (roData_nodup hr) he]
+    rw [cellById_of_mem hr j (List.mem_filter.1 he).1]
+    cases empty
+    · by_cases hj : j = 0
+      · subst hj; simp [index1d, Value.Empty]
+      · simp [hj]
+    · simp [Value.Empty]
+  rw [hL, hR, roData, rhs_only_data hl hr]
+  cases empty
+  · simp only [Bool.false_eq_true, if_false, mergeRow]
+    congr 1
+    rw [filterMap_getElem_map rhs.data (fun e => (index1d e.2.2 j).cell) none _
+      (fun k hk => by simpa [colsOf] using rhsOnly_lt _ _ k hk)]
+    rfl
+  · simp only [if_true, padRight, List.map_const']
+    congr 1
+    have := congrArg List.length (filterMap_getElem_map rhs.data (fun _ => ()) () _
+      (fun k hk => by simpa [colsOf] using rhsOnly_lt (colsOf lhs) (colsOf rhs) k hk))
+    simp only [List.length_map] at this
+    rw [this]
 end MechVerif.JoinIR
